@@ -262,12 +262,15 @@ func bulkScenario(ts [][]string) (string, []string) {
 func main() {
 	c := vlib.Init("exploration")
 	alpha := []byte{'a', '-', '\\', 0xFF}
+	if c.Thorough() {
+		alpha = append(alpha, 0x00, ',') // further bytes a key encoding could treat specially
+	}
 	strs := allStrings(alpha, c.Pick(2, 3))
 	// all ordered pairs, arity 1 and 2
 	for arity := 1; arity <= 2; arity++ {
 		src := strs
 		if arity == 2 && c.Thorough() {
-			src = allStrings(alpha, 2) // 21^2 = 441 tuples -> 194k pairs; len-3 strings only at arity 1
+			src = allStrings(alpha, 2) // 43^2 = 1849 tuples -> 3.4M pairs; len-3 strings only at arity 1
 		}
 		tl := tuples(src, arity)
 		vlib.Parallel(len(tl), runtime.NumCPU(), func(i int) {
@@ -309,6 +312,10 @@ func main() {
 		}
 		c.Sample(map[string]interface{}{"arity": arity, "bulk_tuples": len(tl)})
 	}
-	c.Set("alphabet", `a - \ 0xFF`)
+	if c.Thorough() {
+		c.Set("alphabet", `a - \ 0xFF 0x00 ,`)
+	} else {
+		c.Set("alphabet", `a - \ 0xFF`)
+	}
 	c.Finish("all ordered pairs of tuples (arity 1-2) of all strings up to the length bound over {a,-,\\,0xFF}: create/find/write/expire/delete A while observing B, then on a fresh store a garbage collection with only B marked and one with A overdue; arity 3-4: all tuples in one metric with ordinals. distinct_nontrivial = ordered pairs of unequal tuples")
 }
